@@ -44,6 +44,13 @@ CHECKS['C09'] = {
     'technique': 'TLA+ exact definition + TLC enumeration + state replay; TLC-validated observation events',
 }
 
+CHECKS['C11'] = {
+    'text': 'LinPred.tla adds step-up, prediction-error and inverse-Levinson definitions to the Levinson stage machine; TLC checks on every positive-definite state that ac<->poly<->rc conversions are mutually inverse and commute; each state is replayed into ac2poly, ac2rc, poly2ac, poly2rc, rc2poly, rc2ac (real and complex). LAR / inverse-sine / LSF: exact special points tabulated in ObsC11.tla plus quantised round-trip / monotonicity / ordering observation events for orders 1..16, validated by TLC.',
+    'design_ref': 'DESIGN.md 3/C11',
+    'note': 'For lar/is/lsf the specification contributes the special-point table and the expectation clauses only (transcendental maps): round trips are measured by the harness on float data. Exact universe as C10.',
+    'technique': 'TLA+ exact recursions + TLC enumeration + state replay; TLC-validated observation events',
+}
+
 NOT_APPLICABLE = {
     'C18': 'Slepian tapers: irrational eigenproblem solved in C; no exact finite model exists and quantised re-verification would make Python the oracle (a different technique). DESIGN.md section 4.',
 }
